@@ -13,17 +13,35 @@ use std::task::{Context, Poll, Waker};
 pub(crate) struct QueueInner<S, K: Clone> {
     counter: atomic::AtomicUsize,
     ready_queue: BinaryHeap<ReadyEvent<K>>,
+    /// Ticket of the one valid ready event of each key. A key never has more than one turn
+    /// pending: an event in `ready_queue` whose ticket differs is stale and skipped when popped.
+    queued: HashMap<K, usize>,
     streams: HashMap<K, Pin<Box<S>>>,
     waker: Option<Waker>,
 }
 
 impl<S, K: Clone + Eq + Hash> QueueInner<S, K> {
+    /// Queues `event` as the only valid ready event of its key.
+    fn push_event(&mut self, event: ReadyEvent<K>) {
+        self.queued.insert(event.key.clone(), event.priority);
+        self.ready_queue.push(event);
+    }
+
+    /// Pops the next valid ready event, discarding stale ones.
+    fn pop_event(&mut self) -> Option<ReadyEvent<K>> {
+        while let Some(event) = self.ready_queue.pop() {
+            if self.queued.get(&event.key) == Some(&event.priority) {
+                self.queued.remove(&event.key);
+                return Some(event);
+            }
+        }
+        None
+    }
+
     pub fn insert(&mut self, k: K, s: S) {
         self.streams.insert(k.clone(), Box::pin(s));
-        self.ready_queue.push(ReadyEvent {
-            priority: self.counter.fetch_add(1, atomic::Ordering::Relaxed),
-            key: k,
-        });
+        let priority = self.counter.fetch_add(1, atomic::Ordering::Relaxed);
+        self.push_event(ReadyEvent { priority, key: k });
         if let Some(w) = &self.waker {
             w.wake_by_ref();
         }
@@ -38,6 +56,7 @@ impl<S, K: Clone + Eq + Hash> QueueInner<S, K> {
     pub fn clear(&mut self) {
         self.streams.clear();
         self.ready_queue.clear();
+        self.queued.clear();
     }
 }
 
@@ -78,11 +97,16 @@ struct StreamWaker<S, K: Clone> {
 impl<S, K> ArcWake for StreamWaker<S, K>
 where
     S: Send,
-    K: Clone + Send + Sync,
+    K: Clone + Eq + Hash + Send + Sync,
 {
     fn wake_by_ref(arc_self: &Arc<Self>) {
         let mut inner = arc_self.inner.lock();
-        inner.ready_queue.push(arc_self.event.clone());
+        // A waker may be woken late, or more than once (a transport may keep a clone and wake it
+        // again after the stream has already been served). A stream that is already queued must
+        // not get an extra turn for it, or a busy peer collects turns at the expense of the others.
+        if !inner.queued.contains_key(&arc_self.event.key) {
+            inner.push_event(arc_self.event.clone());
+        }
         if let Some(waker) = inner.waker.take() {
             waker.wake_by_ref();
         }
@@ -104,7 +128,7 @@ where
             let (event, mut io_stream) = {
                 let mut inner = fair_queue.inner.lock();
                 inner.waker = Some(cx.waker().clone());
-                let event = match inner.ready_queue.pop() {
+                let event = match inner.pop_event() {
                     Some(s) => s,
                     None => {
                         return if !inner.streams.is_empty() || fair_queue.block_on_no_clients {
@@ -131,7 +155,9 @@ where
                     let item = Some((event.key.clone(), res));
                     let mut inner = fair_queue.inner.lock();
                     let priority = inner.counter.fetch_add(1, atomic::Ordering::Relaxed);
-                    inner.ready_queue.push(ReadyEvent {
+                    // Supersedes an event queued by a wake-up that arrived while the stream
+                    // was being polled: after a delivery the stream goes to the back.
+                    inner.push_event(ReadyEvent {
                         priority,
                         key: event.key.clone(),
                     });
@@ -160,6 +186,7 @@ impl<S, K: Clone> FairQueue<S, K> {
             inner: Arc::new(Mutex::new(QueueInner {
                 counter: atomic::AtomicUsize::new(0),
                 ready_queue: BinaryHeap::new(),
+                queued: HashMap::new(),
                 streams: HashMap::new(),
                 waker: None,
             })),
